@@ -83,6 +83,10 @@ def run(run):
             from rules import c02
             run.guard('drop condition', c02.drop_condition, run, F)
             run.relabel('C02.f', 'C11.e')
+            # the history is a copy of the request that survived: every request writer must put a *whole* request into the slot (a writer
+            # that sets only the destination leaves the origin / payload of an earlier, consumed request in it -- and in the history)
+            run.guard('request writers', c02.request_writers, run, F, E)
+            run.relabel('C02.a', 'C11.f')
             facts.drop(F)
             cfgmod.clear_cache()
     run.floor('C11.a', 20)
@@ -90,6 +94,7 @@ def run(run):
     run.floor('C11.c', 30)
     run.floor('C11.d', 10)
     run.floor('C11.e', 8)
+    run.floor('C11.f', 8)
     run.explanation = (
         'Effect-set rule on the writers of previousTransition, must-equality dataflow showing that at return the history equals '
         'the accepted transition (whose destination the same analysis shows to be the state finally entered, C02.d), a typestate '
